@@ -87,9 +87,10 @@ impl Property for P {
             3 => 13usize..=40,
             1 => gen::width(),
         ];
-        (text, width)
-            .prop_map(|(text, width)| Case { text, width })
-            .boxed()
+        let normal = (text, width).prop_map(|(text, width)| Case { text, width });
+        let scaled = gen::scaled_text_and_width(gen::Mix::FULL, 1500)
+            .prop_map(|(text, width)| Case { text, width });
+        prop_oneof![66 => normal, 1 => scaled].boxed()
     }
     fn check(c: &Case, _m: Mode) -> Outcome {
         check(c)
